@@ -852,6 +852,43 @@ func prop(c Case) error {
 	if err := lossless("route "+route, t, g, route != "reserve" || true); err != nil {
 		return err
 	}
+	// room reserved in a part accessor's result (a view of that part in its owner's
+	// array: the room is there already, behind it) changes nothing in the owner
+	if g.Layout != 0 {
+		var views []geom.T
+		switch r := t.(type) {
+		case *geom.Polygon:
+			for i := 0; i < r.NumLinearRings(); i++ {
+				views = append(views, r.LinearRing(i))
+			}
+		case *geom.MultiLineString:
+			for i := 0; i < r.NumLineStrings(); i++ {
+				views = append(views, r.LineString(i))
+			}
+		case *geom.MultiPolygon:
+			for i := 0; i < r.NumPolygons(); i++ {
+				views = append(views, r.Polygon(i))
+			}
+		case *geom.MultiPoint:
+			for i := 0; i < r.NumPoints(); i++ {
+				views = append(views, r.Point(i))
+			}
+		}
+		for i, v := range views {
+			if rv, ok := v.(interface{ Reserve(int) }); ok {
+				n := len(v.FlatCoords())/max(v.Stride(), 1) + 1 + i%3
+				rv.Reserve(n)
+				if err := model.WellFormed(v); err != nil {
+					return fmt.Errorf("route %s: part %d of the result after Reserve(%d): %v", route, i, n, err)
+				}
+			}
+		}
+		if len(views) > 0 {
+			if err := lossless("route "+route+", after room was reserved in every part its accessors returned,", t, g, true); err != nil {
+				return err
+			}
+		}
+	}
 	// a polygon taken from a MultiPolygon and given another ring is well formed, and so
 	// is the MultiPolygon afterwards, still holding what it held: the last polygon that
 	// has coordinates is taken (no coordinate follows it, so the ring has room)
